@@ -29,7 +29,7 @@ package apk
 //@   property C11
 //@   nopanic implicit
 //@
-//@ macro hasherOK(h *merkleHasher) bool = len(h.buf) == 1048576 && 0 <= h.n && h.n < 1048576 && len(h.hashes) == len(h.blocks)
+//@ macro hasherOK(h *merkleHasher) bool = len(h.buf) == 1048576 && 0 <= h.n && h.n <= 1048576 && len(h.hashes) == len(h.blocks)
 //@
 //@ func (*merkleHasher).block
 //@   property C09
@@ -56,7 +56,7 @@ package apk
 //@   before call (*merkleHasher).block(_, b): assert @block_content_is_the_stream_slice forall(i, 0, 1048576, b[i] == mapat(S2, emitted + i))
 //@   on call (*merkleHasher).block(_, b) ret (): emitted = emitted + len(b)
 //@   loop 0 sig "for len(d) >= merkleBlock" invariant hasherOK(h) && emitted % 1048576 == 0 && samearr(d, old(d)) && len(d) >= 0 && \
-//@        emitted + h.n + len(d) == total + old(len(d)) && !samearr(d, h.buf) && (len(d) >= 1048576 ==> h.n == 0) && (h.n == 0 || h.n + len(d) < 1048576) && samearr(h.buf, old(h.buf))
+//@        emitted + h.n + len(d) == total + old(len(d)) && !samearr(d, h.buf) && (len(d) >= 1048576 ==> h.n == 0) && (h.n == 0 || h.n + len(d) <= 1048576) && samearr(h.buf, old(h.buf))
 //@   loop 0 invariant @rest_of_d_is_the_rest_of_the_stream forall(i, 0, len(d), d[i] == mapat(S2, emitted + h.n + i))
 //@   loop 0 invariant @buffer_still_holds_its_tail forall(i, 0, h.n, h.buf[i] == mapat(S2, emitted + i))
 //@   ensures @all_bytes_accounted_for ret0 == len(d) && ret1 == nil && emitted + h.n == total + len(d)
